@@ -14,6 +14,10 @@ from ..runner import CheckFailure, Stats, fail, hyp_search
 from ..unitcheck import unit_text
 
 ID = "C14"
+RULE_EXTRA = (
+    " Also: a traversal abandoned by an exception raised in a handler (at the first, the middle and the last interception), "
+    "followed by reuse of the same visitor object on the same tree and on the first external declarations."
+)
 RULE = (
     "(a) exhaustive over the classes listed in _c_ast.cfg (read by an independent parser of the cfg format): for each class, "
     "instances built from sentinel values - attributes get unique strings, single children fresh ID sentinels or None in every "
@@ -23,7 +27,7 @@ RULE = (
     "the preorder node list computed from the cfg; visitors with visit_X for a Hypothesis-chosen subset intercept exactly the "
     "nodes of those classes (two visitor subclasses used alternately on the same trees); show() with each flag combination "
     "prints one line per reachable node. Non-trivial: (a) instances with >= 1 absent optional child (distinct by construction); "
-    "(b) ASTs with >= 15 node classes (distinct by hash of the source)."
+    "(b) ASTs with >= 15 node classes (distinct by hash of the source)." + RULE_EXTRA
 )
 ASSUMPTIONS = [
     "show() line count is not asserted for ASTs containing node-valued attributes (Decl.align with _Alignas, Pragma.string of _Pragma): known finding F29",
@@ -272,6 +276,53 @@ def check_traversal(ast, src, chosen_sets, case, st):
         want = [(type(x).__name__, type(x).__name__) for x in acc if type(x).__name__ in s2]
         if dv.log != want:
             fail("traversal", case, src, "visit_X handlers served by __getattr__ intercepted %d nodes, expected %d" % (len(dv.log), len(want)), "dynamic-handlers")
+    # a traversal abandoned by an exception from a handler (the "raise Found"
+    # idiom), then the same visitor object used again: on the same tree, on the
+    # subtrees along the path to the raising node, on an unrelated subtree
+    if chosen_sets:
+        names = chosen_sets[0]
+        hits = [x for x in acc if type(x).__name__ in names]
+        if hits:
+            class Found(Exception):
+                pass
+
+            class Bail(c_ast.NodeVisitor):
+                def __init__(self):
+                    self.log = []
+                    self.stop_at = None
+
+            def mk3(nm):
+                def m(self, node):
+                    self.log.append(id(node))
+                    if self.stop_at is not None and len(self.log) == self.stop_at:
+                        raise Found()
+                    c_ast.NodeVisitor.generic_visit(self, node)
+
+                return m
+
+            for nm in names:
+                setattr(Bail, "visit_" + nm, mk3(nm))
+            bv = Bail()
+            for stop in sorted({1, (len(hits) + 1) // 2, len(hits)}):
+                bv.log = []
+                bv.stop_at = stop
+                try:
+                    bv.visit(ast)
+                    raised = False
+                except Found:
+                    raised = True
+                if not raised or bv.log != [id(x) for x in hits[:stop]]:
+                    fail("traversal", case, src, "a handler raising at interception %d of %d: %d interceptions before the exception reached the caller (raised=%s)" % (stop, len(hits), len(bv.log), raised), "abandoned-traversal")
+                # reuse after the abandoned traversal
+                roots = [ast] + [r for r in (getattr(ast, "ext", None) or [])[:3]]
+                for root in roots:
+                    sub_acc = preorder(root, [])
+                    want = [id(x) for x in sub_acc if type(x).__name__ in names]
+                    bv.log = []
+                    bv.stop_at = None
+                    bv.visit(root)
+                    if bv.log != want:
+                        fail("traversal", case, src, "visitor reused after a traversal that a handler abandoned with an exception (at interception %d of %d): %d interceptions on %s, expected %d" % (stop, len(hits), len(bv.log), type(root).__name__, len(want)), "reuse-after-exception")
     if not has_node_valued_attr(ast):
         for flags in ({}, {"attrnames": True, "nodenames": True, "showcoord": True}, {"showemptyattrs": False}, {"nodenames": True, "offset": 3}):
             buf = io.StringIO()
